@@ -58,6 +58,24 @@ CHECKS['C14'] = ('exploration',
   'Terms deeper than the bound and names outside the symmetry argument are not enumerated; '
   'callable user predicates are not covered.', '§4 C14')
 
+CHECKS['C20'] = ('model_checking',
+  'stateless preemption-bounded schedule enumeration (DFS over choice sequences) of the real '
+  'PrefetchIterator under a cooperative scheduler + bounded-exhaustive grids for the pure helpers',
+  'PrefetchIterator runs on real OS threads that only move while holding the scheduler baton; '
+  '`threading` inside flax.training.prefetch_iterator is replaced by a virtual namespace, and '
+  'scheduling points sit at every lock/condition/thread operation and at every source line of '
+  'that file (so unsynchronised stores are interleaved too). For every harness (source length, '
+  'failing position, buffer_size, early close position) ALL schedules with at most 2 (quick) / 3 '
+  '(thorough) preemptions are executed and the consumer-visible sequence is compared with the '
+  'source sequence; deadlock, stuck producer and read-ahead are checked; every failing schedule is '
+  'replayed twice before it is reported. The pure helpers (pad_shard_unpad under 1-4 simulated '
+  'devices, scan_in_dim over all axis tuples, replicate/unreplicate/shard/stack_forest/onehot/'
+  'get_metrics, prefetch_to_device over length x size x failing position) are compared with direct '
+  'evaluation on complete small grids.',
+  'Interleavings below source-line granularity and more than 3 preemptions are not explored; '
+  'devices are simulated host devices; early close() is outside the statement and only order / '
+  'each-once / error position are asserted there.', '§4 C20')
+
 NOT_APPLICABLE = {}
 
 
